@@ -51,3 +51,13 @@ def _contains_z3(world, name, dom, rng):
 def contains(s: Str, sub: Str) -> Bool:
     "sub in s"
     return sub in s
+
+
+def _mod3_z3(world, name, dom, rng):
+    return lambda k: k % 3
+
+
+@prim(lean="mod3", z3def=_mod3_z3)
+def mod3(k: Int) -> Int:
+    "k % 3 (the three sequence classes list / tuple / TagList as residues, so that every Int denotes a class)"
+    return k % 3
